@@ -1,7 +1,7 @@
 CONSTANTS
   D = 20
   Copies = 2
-  Pens = {210000}
+  NPens = 1
   Margin = 50
   Drop = {}
 SPECIFICATION Spec
